@@ -28,7 +28,7 @@ func init() {
 		ID: "C10", Title: "Lexical scoping and structured control flow", Level: "model_checking",
 		Units: []Unit{evalUnit([]string{"evaluator/common.go", "evaluator/gen.go", "evaluator/c10.go", "evaluator/c12.go"},
 			Harness{Fn: "ZZC12Iter", Quick: p("K", 3), Thorough: p("K", 4), Expect: []string{"iter-ok", "witness:end"}},
-			Harness{Fn: "ZZC10Structure", Quick: p("D", 2, "L0", 1, "L1", 1, "L2", 1), Thorough: p("D", 2, "L0", 1, "L1", 2, "L2", 1), ThoroughBudget: 25 * time.Minute, Expect: []string{"structure-ok", "witness:end"}},
+			Harness{Fn: "ZZC10Structure", Quick: p("D", 2, "L0", 1, "L1", 1, "L2", 1), Thorough: p("D", 2, "L0", 1, "L1", 2, "L2", 1, "DECLFIRST", 1), ThoroughBudget: 25 * time.Minute, Expect: []string{"structure-ok", "witness:end"}},
 			Harness{Fn: "ZZC10Range", Quick: p("U", 3), Thorough: p("U", 5), Expect: []string{"range-ok", "zero-step", "witness:end"}, Cross: true},
 		)},
 		Assumptions: []string{
